@@ -2,9 +2,9 @@
 """Confirms each incoming seeded change independently: with the patch the repository's own suite passes and the
 demonstration fails; without the patch the demonstration passes.  Runs in a scratch worktree (never in /repo)."""
 import json, os, subprocess, sys, glob, shutil
-WT = '/tmp/seedwt'
+WT = os.environ.get('SEED_WT', '/tmp/seedwt')   # several validators may run side by side: SEED_WT, SEED_OUT per process
 INC = os.environ.get('SEED_INC', '/verif/seeded/_incoming')
-OUT = os.path.join(INC, 'validation.json')
+OUT = os.environ.get('SEED_OUT') or os.path.join(INC, 'validation.json')
 env = dict(os.environ, CARGO_NET_OFFLINE='true', CARGO_TARGET_DIR=WT + '-target')
 
 def sh(cmd, cwd=WT, timeout=1800):
